@@ -132,6 +132,38 @@ def complex_affine_stream(ctx, n):
                          r[1:3] if r[0] != "ok" else np.asarray(r[1].array).tolist(), replay=[desc])
 
 
+def mixed_dtype_affine_stream(ctx, n):
+    """affine_transform(matrix, offset) with an integer linear part and a fractional (or complex) offset, offsets given as
+    arrays and as scalars: p -> M p + v must hold whatever the dtypes of the two arguments are"""
+    import geometer as g
+    rng = ctx.rng
+    for k in range(n):
+        dim = rng.choice([2, 3])
+        while True:
+            M = np.array([[rng.randint(-2, 2) for _ in range(dim)] for _ in range(dim)], dtype=np.int64)
+            if round(np.linalg.det(M)) != 0:
+                break
+        how = k % 4
+        if how == 0:
+            v = np.array([rng.randint(-5, 5) / 2 + 0.25 for _ in range(dim)])
+        elif how == 1:
+            v = np.array([complex(rng.randint(-3, 3), rng.choice([1, -2, 0.5])) for _ in range(dim)])
+        elif how == 2:
+            v = rng.choice([0.5, -1.25, 2.75])                  # scalar offset: the same shift in every coordinate
+        else:
+            v = np.array([rng.randint(-3, 3) for _ in range(dim)], dtype=np.int64)
+            M = M.astype(float) / 2
+        p = np.array([rng.randint(-4, 4) for _ in range(dim)])
+        exp = M @ p + v
+        desc = f"affine_transform({M.tolist()} [{M.dtype}], {np.asarray(v).tolist()} [{np.asarray(v).dtype}]) * Point{tuple(p.tolist())}"
+        ctx.case(desc)
+        ctx.count("mixed-dtype-affine:" + ("frac-offset", "complex-offset", "scalar-offset", "int-offset")[how])
+        r = call_impl(lambda: g.affine_transform(M, v) * g.Point(*p))
+        if r[0] != "ok" or not proj_close_nn(np.append(exp, 1.0), r[1].array):
+            ctx.disagree("C08:mixed-dtype-affine:" + ("frac-offset", "complex-offset", "scalar-offset", "int-offset")[how], desc, np.append(exp, 1.0).tolist(),
+                         r[1:3] if r[0] != "ok" else np.asarray(r[1].array).tolist(), replay=[desc])
+
+
 def rotation_stream(ctx, n):
     import geometer as g
     rng = ctx.rng
@@ -308,6 +340,7 @@ def conics_stream(ctx, n):
 
 
 def correspondence(ctx):
+    mixed_dtype_affine_stream(ctx, ctx.budget(40, 400))
     complex_affine_stream(ctx, ctx.budget(45, 450))
     affine_stream(ctx, ctx.budget(120, 2000))
     rotation_stream(ctx, ctx.budget(150, 2500))
